@@ -758,6 +758,10 @@ fn main() {
                 writeln!(w, "{}", hp.line()).unwrap();
                 for m in helpx::helpers_probe(&hp) { writeln!(w, "X colls helpers case :: {m}").unwrap(); }
             }
+            else if let Some((fr, kind, fuse, ops)) = helpx::hh_parse(l) {
+                writeln!(w, "{}", helpx::hh_line(&fr, kind, fuse, &ops)).unwrap();
+                for m in helpx::hh_probe(&fr, kind, fuse, &ops) { writeln!(w, "X colls helpers case :: {m}").unwrap(); }
+            }
             else if let Some(rest) = l.strip_prefix("HB ") {
                 let f: Vec<&str> = rest.splitn(3, ' ').collect();
                 if f.len() == 3 {
@@ -824,6 +828,12 @@ fn main() {
             let (kind, fuse, ops) = helpx::gen_zs(&mut r);
             writeln!(w, "{}", helpx::zs_line(kind, fuse, &ops)).unwrap();
             for m in helpx::zs_probe(kind, fuse, &ops) { writeln!(w, "X colls helpers case :: {m}").unwrap(); }
+        }
+        if case % 10 == 9 {
+            let fr = helpx::gen_frame(&mut r);
+            let (kind, fuse, ops) = helpx::gen_zs(&mut r);
+            writeln!(w, "{}", helpx::hh_line(&fr, kind, fuse, &ops)).unwrap();
+            for m in helpx::hh_probe(&fr, kind, fuse, &ops) { writeln!(w, "X colls helpers case :: {m}").unwrap(); }
         }
         if case % 20 == 18 {
             let (_, fuse, ops) = helpx::gen_zs(&mut r);
